@@ -639,6 +639,61 @@ impl<K: Kind> crate::Scenario for Capped<K> {
             let _ = self.capped.step(line, ctx);
             return out;
         }
+        if w[0] == "ballast" {
+            // ballast <free> <seed> <lo> <hi>: fill the capped store with functions over the variables
+            // lo..hi (never used by the scripts) until exactly <free> node slots are left, so that the
+            // next operation's (<free>+1)-th allocation is the failing one. Nothing happens on the
+            // reference manager.
+            let free: usize = w[1].parse().unwrap();
+            let mut rng = crate::Rng::new(w[2].parse().unwrap());
+            let (lo, hi): (u32, u32) = (w[3].parse().unwrap(), w[4].parse().unwrap());
+            let target = self.cap.saturating_sub(free);
+            let mref = self.capped.mref().clone();
+            let count = |m: &<K::F as oxidd::Function>::ManagerRef| m.with_manager_shared(|m| {
+                m.gc();
+                m.num_inner_nodes()
+            });
+            let mut pool: Vec<K::F> = Vec::new();
+            mref.with_manager_shared(|m| {
+                for v in lo..hi {
+                    if let Ok(f) = K::F::var(m, v) {
+                        pool.push(f);
+                    }
+                }
+            });
+            let mut cur = count(&mref);
+            let mut tries = 0;
+            while cur < target && tries < 20000 && !pool.is_empty() {
+                tries += 1;
+                let a = rng.pick(&pool).clone();
+                let b = rng.pick(&pool).clone();
+                let r = match rng.below(4) {
+                    0 => a.and(&b),
+                    1 => a.xor(&b),
+                    2 => a.or(&b),
+                    _ => a.nand(&b),
+                };
+                let Ok(r) = r else { continue };
+                if pool.contains(&r) {
+                    continue;
+                }
+                pool.push(r);
+                let c2 = count(&mref);
+                if c2 > target {
+                    pool.pop();
+                    let _ = count(&mref);
+                } else {
+                    cur = c2;
+                }
+            }
+            if cur == target {
+                ctx.count("ballast_fill_exact");
+            } else {
+                ctx.count("ballast_fill_inexact");
+            }
+            self.capped.state.insert("ballast".into(), Box::new(pool));
+            return "ok".into();
+        }
         let out_ref = self.reference.step(line, ctx);
         let mut sub = Ctx { line_no: ctx.line_no, case: ctx.case.clone(), failures: Vec::new(), stats: std::collections::BTreeMap::new(), extra: ctx.extra.clone() };
         let out_cap = self.capped.step(line, &mut sub);
